@@ -19,7 +19,7 @@ func init() {
 			{"C06/outermost-first", ruleC06Outermost},
 		},
 		Explanation: "Decides the dynamic-scope mechanism structurally: the evaluator pushes the current schema onto the per-call stack exactly once, before any recursive evaluation or stack read, and registers (before any exit can be taken) a deferred function whose only effect is to shrink the stack by one, so the pop happens on every exit including failures; nothing else in the closure of Validate writes the stack or any other field of the per-call state, and nothing writes shared memory (so no dynamic-scope information survives a call or leaks between calls, for all histories); reference resolution stores either the lexical target or the anchor name on the two exclusive outcomes of one test, and the reference resolver reports a dynamic fragment only when the anchor entry it found is itself dynamic; the run-time search walks the stack forwards from its first (outermost) element, looks the name up in the anchor table of each entry's base resource, requires the entry to be dynamic and stops at the first hit. It does NOT decide which target a concrete topology selects.",
-		NotDecided: []string{"that the selected target is the one the specification designates for a concrete topology", "dynamic references during default validation (documented as unsupported)"},
+		NotDecided:  []string{"that the selected target is the one the specification designates for a concrete topology", "dynamic references during default validation (documented as unsupported)"},
 	})
 }
 
